@@ -252,6 +252,14 @@ def _checkpoint(check: Check, aa: AtomicAnalysis):
           names = [x for x in ast.walk(s) if isinstance(x, ast.Name)]
           if any(same_value(fl, x, parg) for x in names if isinstance(parg, ast.Name)):
             rn_ok = True
+    # the state handed back is the object load_state returned (no device_put / conversion: 64-bit leaves would be downcast)
+    st_raw = False
+    for _, v in fl.returns():
+      if isinstance(v, ast.Tuple) and len(v.elts) == 2:
+        st_raw = any(s is c for s in fl.expand(v.elts[0]))
+    check.ob('R-RESUME.state-raw', load, 'return load_state(path), round', st_raw,
+             'the loaded state is returned as it was unpickled: a conversion on the way (jax.device_put, tree_map, asarray) changes leaf '
+             'types (float64 -> float32, numpy -> jax), so a resumed run no longer continues from the saved state', node=c)
     check.ob('R-PAIR', load, 'round number source', rn_ok,
              'the returned round number must be parsed from the same path that is loaded', node=c)
 
